@@ -13,6 +13,7 @@ import SfntV.Proofs.MetricsOs2
 import SfntV.Proofs.MetricsWriter
 import SfntV.Proofs.MetricsCaret
 import SfntV.Proofs.MetricsQueries
+import SfntV.Proofs.MetricsBoxes
 
 namespace SfntV.Props.C12
 open SfntV SfntV.Metrics
@@ -270,6 +271,33 @@ theorem C12_fontbboxpdf_image (s : Rat) (hs : 0 < s) (gs : List (Option Rect))
   cases g with
   | none => exact ⟨Int.le_refl 0, Int.le_refl 0⟩
   | some e' => exact hwf e' hg
+
+/-- `GlyphBBox` of a CFF glyph (`cff.Glyph.Extent`) is the smallest box with integer coordinates
+enclosing the outline points (`⌊min⌋ / ⌈max⌉`, also for negative fractional coordinates), and every
+outline point lies inside it. -/
+theorem C12_extent_encloses (pts : List (Rat × Rat)) :
+    extentQ pts = Spec.enclosingBox pts ∧
+    ∀ p ∈ pts, ((extentQ pts).llx : Rat) ≤ p.1 ∧ p.1 ≤ ((extentQ pts).urx : Rat) ∧
+      ((extentQ pts).lly : Rat) ≤ p.2 ∧ p.2 ≤ ((extentQ pts).ury : Rat) := by
+  refine ⟨extent_eq_enclosingBox pts, ?_⟩
+  rw [extent_eq_enclosingBox]
+  exact enclosingBox_encloses pts
+
+/-- `GlyphBBoxPDF` under ANY font matrix (shear of either sign, rotation, flip, offset) is the
+bounding box of the images of all the points it is given — for a glyf glyph all FOUR corners of its
+box — under the matrix scaled by 1000, and contains each of these images. -/
+theorem C12_glyphbboxpdf_image (fm : Mat) (p0 : Rat × Rat) (ps : List (Rat × Rat)) :
+    glyphBBoxPDF fm (some (p0 :: ps)) = Spec.imageBox (Spec.pdfMatrix fm) (p0 :: ps) ∧
+    ∀ p ∈ p0 :: ps,
+      (glyphBBoxPDF fm (some (p0 :: ps))).llx ≤ (Spec.image (Spec.pdfMatrix fm) p).1 ∧
+      (Spec.image (Spec.pdfMatrix fm) p).1 ≤ (glyphBBoxPDF fm (some (p0 :: ps))).urx ∧
+      (glyphBBoxPDF fm (some (p0 :: ps))).lly ≤ (Spec.image (Spec.pdfMatrix fm) p).2 ∧
+      (Spec.image (Spec.pdfMatrix fm) p).2 ≤ (glyphBBoxPDF fm (some (p0 :: ps))).ury := by
+  have h := glyphBBoxPDF_eq_imageBox fm (p0 :: ps)
+  simp only at h
+  refine ⟨h, ?_⟩
+  rw [h]
+  exact imageBox_encloses _ _
 
 /-- The rational model of the writer's handling of CFF widths (`int(w)`, `funit.Int16(w)`,
 `|width − w| ≥ 0.5`) restricted to integral widths is the integral model the `C12_*_def` theorems
